@@ -16,8 +16,24 @@
   `getCallTarget` answers; `C09_unique_record`.  `C09_full` states the whole-analysis form and is PROVED
   (`C09_full_holds`, by an invariant over the whole mutual visitor): no counterexample exists in the
   single-file model (the imported-class defect needs the cross-module model, see C06).
+
+  Round 3 — "each spelled in the nameable format" against the INDEPENDENT spelling `Spec.spell`
+  (RattrModel/Spec/Spell.lean, the README table) instead of the model's own namer:
+    * `Spec.argDoc` (RattrModel/Spec/ArgSpell.lean): the decidable class of argument expressions whose
+      README spelling the record owes — every expression except those read through a direct
+      getattr-family call that has no dotted equivalent (non-literal name, < 2 arguments) or whose object
+      has no variable-rooted spelling; it contains calls and method calls ON getattr results,
+      `getattr.x(…)`, nested literal getattr, every stand-in;
+    * `C09_arg_documented` / `C09_args_documented` / `C09_kwargs_documented` / `C09_record_documented`:
+      on that class the recorder (`arg_name` / `kwarg_name` = the deprecated namer) produces exactly
+      `Spec.spell`, for all argument lists, states and continuations (via `C09S.bridge_old`: the two
+      models of the deprecated namer answer alike on every node);
+    * `C09_nameable_iff`: the hypothesis `Nameable` of the round-1 theorems, decided on the projection;
+    * `C09_cex_new_namer_on_xattr_result`: the other namer (`names_of`) does NOT have this property —
+      on `getattr(u, "cfg").pick(v, "name")` it answers `v.name` where the README says `u.cfg.pick()`.
 -/
 import RattrProofs.Lemmas.VisitCtx
+import RattrProofs.Lemmas.C09Spell
 
 namespace Rattr.C09
 open Rattr Rattr.FnA Rattr.Strs
@@ -377,6 +393,111 @@ theorem C09_full_holds : C09_full := by
   | fatal s1 d => simp [hr, FnA.bind] at h
   | crash s1 e => simp [hr, FnA.bind] at h
 
+/-! ### the recorded spellings are the documented ones (`Spec.spell`) on the documented fragment -/
+
+/-- what the namers look at of a node: the projection onto the expression type of the namer-level
+model (`C09S.toExpr`; the same function as `C10.toExpr`, RattrProofs/Lemmas/C09SpellC10.lean). -/
+abbrev proj (a : Node) : Naming.Expr := C09S.toExpr a
+
+/-- on the documented fragment the recorder's namer (`get_fullname(arg, safe=True)`) answers, and
+its spelling is the README's `Spec.spell` of the argument expression. -/
+theorem C09_arg_documented (a : Node) (h : Spec.argDoc (proj a) = true) :
+    ∃ b, oldNames true a = .ok b (Spec.spell (proj a)) := by
+  obtain ⟨b, hb⟩ := C09S.old_arg_doc _ h
+  have hbr := C09S.bridge_old a true
+  rw [hb] at hbr
+  exact ⟨b, C09S.okN_ok.1 hbr⟩
+
+theorem C09_doc_nameable (a : Node) (h : Spec.argDoc (proj a) = true) : Nameable a := by
+  obtain ⟨b, hb⟩ := C09_arg_documented a h
+  exact ⟨b, _, hb⟩
+
+/-- the spelling of the round-1 specification (`spell`, the model's namer) IS the independent
+README spelling on the documented fragment. -/
+theorem C09_spell_documented (a : Node) (h : Spec.argDoc (proj a) = true) :
+    spell a = Spec.spell (proj a) := by
+  obtain ⟨b, hb⟩ := C09_arg_documented a h
+  exact spell_eq hb
+
+/-- `Nameable`, decided on the projection: the recorder's namer answers exactly when the namer-level
+model of `get_basename_fullname_pair` (the one the harness ties to the real function, C10) does. -/
+theorem C09_nameable_iff (a : Node) :
+    Nameable a ↔ (Naming.oldNames true (proj a)).isOk = true := by
+  have hbr := C09S.bridge_old a true
+  constructor
+  · rintro ⟨b, f, h⟩
+    rw [h] at hbr
+    cases h2 : Naming.oldNames true (proj a) <;> simp_all [C09S.okN, C09S.okE, Naming.Out.isOk, proj]
+  · intro h
+    cases h2 : Naming.oldNames true (proj a) with
+    | ok b f =>
+      rw [show Naming.oldNames true (C09S.toExpr a) = .ok b f from h2] at hbr
+      exact ⟨b, f, C09S.okN_ok.1 hbr⟩
+    | fatal w => rw [h2] at h; simp [Naming.Out.isOk] at h
+    | raised e => rw [h2] at h; simp [Naming.Out.isOk] at h
+
+/-- positional arguments: on the documented fragment the record lists `Spec.spell` of each argument
+expression, in source order (one `starred-arg` error per Starred argument; nothing else happens). -/
+theorem C09_args_documented (s : St) (args : List Node) (k : St → List Str → Res)
+    (h : ∀ a ∈ args, Spec.argDoc (proj a) = true) :
+    argNames s args k
+      = k (St.diagL s (starredDiags args)) (args.map fun a => Spec.spell (proj a)) := by
+  rw [C09_args_in_order s args k (fun a ha => C09_doc_nameable a (h a ha))]
+  congr 1
+  exact List.map_congr_left (fun a ha => C09_spell_documented a (h a ha))
+
+/-- the keyword part of the documented record. -/
+def kwDoc (kwn : List (Option Str)) (kwv : List Node) : List (Str × Str) :=
+  (kwn.zip kwv).filterMap fun p => p.1.map fun key => (key, Spec.spell (proj p.2))
+
+/-- every NAMED keyword's value is in the documented fragment. -/
+def KwDocumented (kwn : List (Option Str)) (kwv : List Node) : Prop :=
+  ∀ p ∈ kwn.zip kwv, p.1 ≠ none → Spec.argDoc (proj p.2) = true
+
+theorem filterMap_congr_mem {α β : Type} {f g : α → Option β} :
+    ∀ {l : List α}, (∀ a ∈ l, f a = g a) → l.filterMap f = l.filterMap g
+  | [], _ => rfl
+  | a :: r, h => by
+    have ih := filterMap_congr_mem (l := r) (fun x hx => h x (List.mem_cons_of_mem _ hx))
+    simp only [List.filterMap_cons, h a List.mem_cons_self, ih]
+
+theorem kwSpec_documented (kwn : List (Option Str)) (kwv : List Node) (h : KwDocumented kwn kwv) :
+    kwSpec kwn kwv = kwDoc kwn kwv := by
+  unfold kwSpec kwDoc
+  apply filterMap_congr_mem
+  intro p hp
+  cases hk : p.1 with
+  | none => simp
+  | some key =>
+    have := C09_spell_documented p.2 (h p hp (by simp [hk]))
+    simp [this]
+
+/-- keyword arguments: by keyword, each value spelled `Spec.spell`. -/
+theorem C09_kwargs_documented (s : St) (kwn : List (Option Str)) (kwv : List Node)
+    (k : St → List (Str × Str) → Res) (h : KwDocumented kwn kwv) :
+    kwargNames s kwn kwv k = k s (kwDoc kwn kwv) := by
+  rw [C09_kwargs_by_name s kwn kwv k (fun p hp hne => C09_doc_nameable p.2 (h p hp hne)),
+    kwSpec_documented kwn kwv h]
+
+/-- **the record of a call whose arguments are in the documented fragment**: the name without its
+call brackets, the instance stand-in (if any) first, then the README spelling of each positional
+argument in source order, the named keywords with the README spelling of their values. -/
+theorem C09_record_documented (s : St) (name : Str) (args : List Node) (kwn : List (Option Str))
+    (kwv : List Node) (target : Option Sym) (self : Option Str) (k : St → CallSym → Res)
+    (ha : ∀ a ∈ args, Spec.argDoc (proj a) = true) (hk : KwDocumented kwn kwv) :
+    mkCall s name args kwn kwv target self k =
+      k (St.diagL s (starredDiags args))
+        { name := withoutCallBrackets name,
+          args := self.toList ++ args.map (fun a => Spec.spell (proj a)),
+          kwargs := kwDoc kwn kwv, target := target } := by
+  rw [C09_self_prepended s name args kwn kwv target self k
+        (fun a h => C09_doc_nameable a (ha a h))
+        (fun p hp hne => C09_doc_nameable p.2 (hk p hp hne))]
+  congr 1
+  simp only [record, kwSpec_documented kwn kwv hk]
+  congr 2
+  exact List.map_congr_left (fun a h => C09_spell_documented a (ha a h))
+
 /-! ### non-vacuity: the hypotheses are satisfiable, on a call with a Starred argument, an
 unnameable argument, a named and a `**` keyword -/
 
@@ -426,6 +547,48 @@ example (k : St → Bool → Res) : ∃ s2 : St,
   C09_returned_instance env0 [] (nm "C") args0 kwn0 kwv0 s0 k "C".toList "C()".toList "C".toList
     "C()".toList clsC (some clsC) [] (by decide) (by decide) (by decide) (by decide) (by decide)
     (by decide) args0_nameable kw0_nameable
+
+/-! #### the class the two namers disagree on: calls ON a getattr result -/
+
+def sLit (x : String) : Node := .strConst x.toList
+/-- `getattr(u, "cfg")` -/
+def wGetattr : Node := .call (nm "getattr") [nm "u", sLit "cfg"] [] []
+/-- `getattr(u, "cfg").pick(v, "name")` -/
+def wMethodOnGetattr : Node := .call (.attr wGetattr "pick".toList .load) [nm "v", sLit "name"] [] []
+/-- `getattr(u, "cfg")(v, "name")` -/
+def wCallOnGetattr : Node := .call wGetattr [nm "v", sLit "name"] [] []
+
+/-- in the documented fragment; the recorder's namer spells them as the README does … -/
+theorem C09_xattr_result_documented :
+    Spec.argDoc (proj wMethodOnGetattr) = true ∧ Spec.argDoc (proj wCallOnGetattr) = true
+    ∧ Spec.spell (proj wMethodOnGetattr) = "u.cfg.pick()".toList
+    ∧ Spec.spell (proj wCallOnGetattr) = "u.cfg()".toList
+    ∧ spell wMethodOnGetattr = "u.cfg.pick()".toList ∧ spell wCallOnGetattr = "u.cfg()".toList := by
+  decide +kernel
+
+/-- … the OTHER namer (`names_of` / `fullname_of`, which decides "this is a getattr call" from the base
+name of the function) does not: it reads the outer call's own arguments as (object, attribute).
+`arg_name` / `kwarg_name` must keep calling the namer that asks `is_call_to`. -/
+theorem C09_cex_new_namer_on_xattr_result :
+    namesOf true wMethodOnGetattr = .ok "getattr".toList "v.name".toList
+    ∧ namesOf true wCallOnGetattr = .ok "getattr".toList "v.name".toList
+    ∧ namesOf true (.call (.attr wGetattr "pick".toList .load) [nm "v"] [] [])
+        = .fatal (mkDiag .fatal "xattr-too-few" "getattr".toList) := by
+  decide +kernel
+
+/-- TEST (kernel evaluation of the whole analyser on one function; not a general statement):
+`def w(u, v): return helper(getattr(u, "cfg").pick(v, "name"), q=getattr(u, "alt")(v, u))` records
+`helper('u.cfg.pick()', q='u.alt()')`. -/
+theorem C09_test_xattr_result_record :
+    (match analyse env0 [] [[]] ⟨[], ["u".toList, "v".toList], none, [], none⟩
+        [ .ret [.call (nm "helper") [wMethodOnGetattr] [some "q".toList]
+                  [.call (.call (nm "getattr") [nm "u", sLit "alt"] [] []) [nm "v", nm "u"] [] []]] ] with
+     | .ok s => (s.calls.filter fun c => c.name = "helper".toList).map (fun c => (c.args, c.kwargs))
+     | _ => []) =
+    [ (["u.cfg.pick()".toList], [("q".toList, "u.alt()".toList)]) ] := by decide +kernel
+
+example : ∀ a ∈ [wMethodOnGetattr, wCallOnGetattr, nm "a", .const], Spec.argDoc (proj a) = true := by
+  decide +kernel
 
 /-- TEST (one concrete run of the whole analyser, by kernel evaluation; not a general statement):
 `def w(a, b): C(a); x = C(b); return C(a, k=b)` records the three instances `@C`, `x`,
